@@ -80,6 +80,12 @@ f_neg = z3.Function("fneg", Dbl, Dbl)
 f_toint = z3.Function("f2i", Dbl, I)
 
 
+def d_neg(a):
+    """exact IEEE negation on the (kind, value) model"""
+    return z3.If(Dbl.is_fin(a), Dbl.fin(-Dbl.val(a)),
+                 z3.If(Dbl.is_pinf(a), Dbl.ninf, z3.If(Dbl.is_ninf(a), Dbl.pinf, a)))
+
+
 class Unsupported(Exception):
     pass
 
@@ -350,7 +356,17 @@ class HeapView:
             return Ptr(ptr.region, ptr.off, path, ptr.nullc)
         if t.kind == "array":
             return Ptr(ptr.region, ptr.off, path, ptr.nullc)
-        return self.s.array(ptr.region, path, t)[ptr.off]
+        v = self.s.array(ptr.region, path, t)[ptr.off]
+        self._range_fact(v, t)
+        return v
+
+    def _range_fact(self, v, t):
+        """every C object of an integer type holds a value of that type"""
+        if t.kind in ("int", "bool") and not z3.is_bv(v):
+            key = v.get_id()
+            if key not in self.ex.range_seen:
+                self.ex.range_seen.add(key)
+                self.ex.len_facts.append(in_range(v, t))
 
     def sub(self, ptr, field):
         """pointer to an embedded struct field"""
@@ -482,6 +498,7 @@ class Exec:
         self.obligations = []
         self.ob_names = {}
         self.ob_seen = set()
+        self.range_seen = set()
         self.trivial = []
         self.loop_counter = 0
         self.call_counter = 0
@@ -963,9 +980,7 @@ class Exec:
         if op == "-":
             v = self.rvalue(st, sub)
             if t.kind == "double":
-                if z3.is_app(v.v) and Dbl.is_fin(v.v) is not None and z3.simplify(Dbl.is_fin(v.v)).eq(z3.BoolVal(True)):
-                    return Val(t, Dbl.fin(z3.simplify(-Dbl.val(v.v))))
-                return Val(t, f_neg(v.v))
+                return Val(t, z3.simplify(d_neg(v.v)))
             r = -v.v
             if t.signed:
                 self.oblige(st, "OVERFLOW", in_range(r, t), w)
